@@ -20,7 +20,7 @@ import (
 	"verif/topicref"
 )
 
-const c06Rule = "five sub-checks. (1)+(2) bytes -> gmqtt Reader (versions 3/4/5, bufio sizes 16..4096): structure-aware mutations of valid mqttwire encodings (truncation, remaining length larger/smaller/non-canonical/5-byte, flags, type, duplicated/foreign/out-of-range properties, property length, bad UTF-8, string length prefixes, byte flips, inserts/deletes, semantic oddities, optional tail), framed random bytes, raw random bytes, hostile constants, every truncation of sample packets; oracle: no panic, returns within 10s, consumed <= header+declared length, TotalAlloc growth <= 64KiB+64*len, accepted packets Pack+ReadPacket to an equal packet, TotalBytes == encoded length, and equal fields whenever the reference decoder accepts too. (3) mqttwire.GenPacket values (all types legal per direction, every property) encoded by mqttwire and decoded by gmqtt, and converted to gmqtt values, packed by gmqtt and decoded by mqttwire. (4) TotalBytes of packets and Message.TotalBytes vs MessageToPublish+Pack with lengths straddling 127/128, 16383/16384 (rarely 2097151/2097152). (5) ValidUTF8/ValidTopicName/ValidTopicFilter/ValidV5Topic and PUBLISH/SUBSCRIBE/UNSUBSCRIBE decoding vs topicref on generated level structures and random bytes; MAY class only counted. Non-trivial: (1)(2) accepted with >=1 property or payload, or rejected behind a well-formed complete frame; (3)(4) >=2 properties; (5) input with wildcard, $share, or non-ASCII bytes."
+const c06Rule = "five sub-checks. (1)+(2) bytes -> gmqtt Reader (versions 3/4/5, bufio sizes 16..4096): structure-aware mutations of valid mqttwire encodings (truncation, remaining length larger/smaller/non-canonical/5-byte, flags, type, duplicated/foreign/out-of-range properties, property length, bad UTF-8, string length prefixes, byte flips, inserts/deletes, semantic oddities, optional tail), framed random bytes, raw random bytes, hostile constants (the only inputs declaring more than 8 MiB: generated declared lengths are capped at 2-4 MiB because gmqtt allocates what is declared), every truncation of sample packets, corpus files; oracle: no panic, returns within 10s, consumed <= header+declared length, TotalAlloc growth <= 64KiB+64*len, accepted packets Pack+ReadPacket to an equal packet, TotalBytes == encoded length, and equal fields whenever the reference decoder accepts too. (3) mqttwire.GenPacket values (all types legal per direction, every property) encoded by mqttwire and decoded by gmqtt, and converted to gmqtt values, packed by gmqtt and decoded by mqttwire. (4) TotalBytes of packets and Message.TotalBytes vs MessageToPublish+Pack with lengths straddling 127/128, 16383/16384 (rarely 2097151/2097152). (5) ValidUTF8/ValidTopicName/ValidTopicFilter/ValidV5Topic and PUBLISH/SUBSCRIBE/UNSUBSCRIBE decoding vs topicref on generated level structures and random bytes; MAY class only counted. Non-trivial: (1)(2) accepted with >=1 property or payload, or rejected behind a well-formed complete frame; (3)(4) >=2 properties; (5) input with wildcard, $share, or non-ASCII bytes."
 
 func c06RunBytes(s c06BytesScen, c *ev.Case) *ev.Violation {
 	c.Label("mut_" + s.Mut)
@@ -38,6 +38,7 @@ func TestC06Mutate(t *testing.T) {
 }
 
 func TestC06Random(t *testing.T) {
+	ev.SetRule("C06", c06Rule)
 	ev.RunN(t, "C06", 1, c06GenRandom, c06RunBytes)
 }
 
@@ -204,6 +205,7 @@ func c06RunDiffDecode(s c06PktScen, c *ev.Case) *ev.Violation {
 }
 
 func TestC06DiffDecode(t *testing.T) {
+	ev.SetRule("C06", c06Rule)
 	ev.RunN(t, "C06", 1.5, c06GenPkt([]mw.Direction{mw.ToServer, mw.ToServer, mw.ToServer, mw.ToClient}), c06RunDiffDecode)
 }
 
@@ -267,5 +269,6 @@ func c06RunDiffEncode(s c06PktScen, c *ev.Case) *ev.Violation {
 }
 
 func TestC06DiffEncode(t *testing.T) {
+	ev.SetRule("C06", c06Rule)
 	ev.RunN(t, "C06", 1, c06GenPkt([]mw.Direction{mw.AnyDir}), c06RunDiffEncode)
 }
